@@ -1,2 +1,304 @@
-/- C10 driver (stub until the model exists) -/
-def main : IO Unit := pure ()
+/- C10 driver: trace acceptor.  Input per case: op lines, then the implementation's output lines
+prefixed "T ", then "end".  For every pipe lifecycle (`init` … `cleanup`) it
+ (1) decides the PROPERTY on the delivered stream with the abstract spec (`Spec.accept`: an
+     interleaving of whole appends, per-thread order, nothing lost / duplicated), callbacks not
+     overlapping, cleanup returned;
+ (2) rebuilds an interleaving of MODEL steps that produces exactly the observed block sequence
+     (every step checked with `valid`) — the run of the real code must be a run of the model.
+Prints `ok …` or `reject <reason>`. -/
+import TboxModel.Util
+import TboxModel.C10.Model
+import TboxModel.C10.Spec
+open Tbox.Util Tbox.C10
+
+/-! record format shared with props/C10/harness.cpp -/
+def payloadByte (tid seq i : Nat) : UInt8 := UInt8.ofNat ((tid * 37 + seq * 11 + i * 7 + 3) % 251)
+
+def recordBytes (tid seq len : Nat) : List UInt8 :=
+  [UInt8.ofNat (0xA0 + tid), UInt8.ofNat (seq / 256), UInt8.ofNat (seq % 256), UInt8.ofNat (len / 256), UInt8.ofNat (len % 256)]
+    ++ (List.range len).map (payloadByte tid seq)
+
+/-- tail-recursive hex decoding -/
+def hexToBytes (s : String) : Option (Array UInt8) :=
+  if s == "-" then some #[] else
+  let rec go (cs : List Char) (acc : Array UInt8) : Option (Array UInt8) :=
+    match cs with
+    | [] => some acc
+    | [_] => none
+    | a :: b :: rest =>
+      match hexVal a, hexVal b with
+      | some x, some y => go rest (acc.push (UInt8.ofNat (x * 16 + y)))
+      | _, _ => none
+  go s.toList #[]
+
+inductive Tok where | app (len : Nat) (grouped : Bool) | zero
+
+def parseTok (w : String) : Option Tok :=
+  if w == "z" then some .zero
+  else if w.startsWith "g" then
+    match (w.drop 1).toString.toNat? with | some n => if n ≤ 20000 then some (.app n true) else none | none => none
+  else match w.toNat? with | some n => if n ≤ 20000 then some (.app n false) else none | none => none
+
+structure Live where
+  cfg : Cfg
+  nextSeq : Array Nat := Array.replicate 8 0
+  prog : Array (List (List UInt8)) := Array.replicate 8 []      -- appended in this lifecycle, per thread, in order
+  declared : Array (Option (List Tok)) := Array.replicate 8 none   -- producers declared for the next `run`
+  nrec : Nat := 0
+
+structure TAcc where
+  live : Option Live := none
+  tl : List String := []
+  tags : List String := []
+  err : Option String := none
+  nops : Nat := 0
+  lifecycles : Nat := 0
+  records : Nat := 0
+  blocks : Nat := 0
+
+def expectLine (a : TAcc) (want : String) (what : String) : TAcc :=
+  match a.tl with
+  | l :: rest => if l == want then { a with tl := rest }
+                 else { a with err := some s!"op#{a.nops} {what}: impl=[{l.take 120}] expected=[{want}]" }
+  | [] => { a with err := some s!"op#{a.nops} {what}: impl=<missing> expected=[{want}]" }
+
+/-! ### model schedule reconstruction -/
+
+structure Sch where
+  s : State
+  n : Nat := 0
+  err : Option String := none
+  blockedSeen : Bool := false
+
+def Sch.step (a : Sch) (st : Step) : Sch :=
+  if a.err.isSome then a
+  else if valid a.s st then { a with s := Tbox.C10.step a.s st, n := a.n + 1 }
+  else { a with err := some s!"model step {repr st} is not enabled after {a.n} steps" }
+
+/-- run the back-end thread alone until `p` holds -/
+def Sch.backendUntil (a : Sch) (p : State → Bool) : Nat → Sch
+  | 0 => if a.err.isSome || p a.s then a else { a with err := some "back end makes no progress in the model" }
+  | fuel + 1 =>
+    if a.err.isSome || p a.s then a else
+    match beNext a.s with
+    | some st => (a.step st).backendUntil p fuel
+    | none => { a with err := some "back end has exited in the model" }
+
+/-- one whole `append` of thread `p` (the head of its program) -/
+def Sch.appendOne (a : Sch) (p : Nat) : Sch :=
+  let a := a.step (.acquire p)
+  let rec loop (a : Sch) : Nat → Sch
+    | 0 => a
+    | fuel + 1 =>
+      if a.err.isSome then a else
+      match a.s.owner with
+      | none => a
+      | some o =>
+        if o.remain.isEmpty then a else
+        let a := if a.s.curr.isNone then
+                   let a := a.step .pTake
+                   match a.s.owner with
+                   | some o' => if o'.blocked then
+                       ({ a with blockedSeen := true }.backendUntil (fun s => decide (0 < s.free)) (8 * (a.s.buffNum + 2))).step .pWake
+                     else a
+                   | none => a
+                 else a
+        loop (a.step .pWrite) fuel
+  let fuel := match a.s.owner with | some o => o.remain.length + 2 | none => 0
+  (loop a fuel).step .release
+
+/-- appends of length 0 at the head of thread p's program -/
+def Sch.flushEmpties (a : Sch) (p : Nat) : Nat → Sch
+  | 0 => a
+  | fuel + 1 =>
+    if a.err.isSome then a else
+    match a.s.prog p with
+    | [] :: _ => (a.appendOne p).flushEmpties p fuel
+    | _ => a
+
+def schedule (cfg : Cfg) (prog : Nat → List (List UInt8)) (order : List (Nat × List UInt8))
+    (bounds : List Nat) (maxEmpties : Nat) : Sch :=
+  let a0 : Sch := { s := init cfg prog }
+  let (a, _) := order.foldl (fun (acc : Sch × Nat) (pd : Nat × List UInt8) =>
+      let (a, w) := acc
+      let a := (a.flushEmpties pd.1 maxEmpties).appendOne pd.1
+      let w := w + pd.2.length
+      -- a block boundary here with a partial current buffer = the timed hand-over took it now
+      let a := if a.s.curr.isSome && bounds.contains w then
+                 a.backendUntil (fun s => s.curr.isNone) (8 * (a.s.buffNum + 3))
+               else a
+      (a, w)) (a0, 0)
+  let a := (List.range 8).foldl (fun a p => a.flushEmpties p maxEmpties) a
+  let a := a.step .cleanupSignal
+  let a := a.backendUntil (fun s => s.bpc == .exited) (8 * (a.s.buffNum + 4))
+  a.step .join
+
+/-! ### diagnostics for a rejected stream -/
+
+def diagnose (prog : Nat → List (List UInt8)) (stream : List UInt8) : String :=
+  let rec go (g : Spec.Prog) (s : List UInt8) (off : Nat) : Nat → String
+    | 0 => "?"
+    | fuel + 1 =>
+      match s with
+      | [] =>
+        let left := (List.range 8).filter fun p => !(Spec.dropEmpties (g p)).isEmpty
+        match left with
+        | [] => "?"
+        | p :: _ => s!"LOST: {(Spec.dropEmpties (g p)).length} append(s) of thread {p} never delivered (stream ended at offset {off})"
+      | b :: _ =>
+        match Spec.tidOfByte b with
+        | none => s!"offset {off}: byte {b.toNat} is not the start of any append (torn, duplicated or reordered data)"
+        | some p =>
+          match Spec.dropEmpties (g p) with
+          | [] => s!"offset {off}: an append of thread {p} starts here but that thread has nothing pending (DUPLICATE or out of order)"
+          | d :: ds =>
+            if d.isPrefixOf s then go (Spec.Prog.set g p ds) (s.drop d.length) (off + d.length) fuel
+            else
+              let seq := (d.getD 1 0).toNat * 256 + (d.getD 2 0).toNat
+              if s.isPrefixOf d then s!"LOST: the stream ends at offset {off + s.length} inside the append of thread {p} seq {seq} ({d.length} bytes)" else
+              s!"offset {off}: next append of thread {p} (seq {seq}, {d.length} bytes) is NOT CONTIGUOUS / not next in its thread's order"
+  go prog stream 0 (stream.length + 2)
+
+def splitBlocks (stream : List UInt8) : List Nat → List (List UInt8)
+  | [] => []
+  | n :: ns => stream.take n :: splitBlocks (stream.drop n) ns
+
+def prefixSums (l : List Nat) : List Nat := (l.foldl (fun (acc : List Nat × Nat) n => ((acc.2 + n) :: acc.1, acc.2 + n)) ([], 0)).1
+
+/-- the `cleanup` of a live pipe: consume `P cleanup ok`, `K`, `S`, `P cb …` and judge -/
+def judgeCleanup (a : TAcc) (lv : Live) : TAcc :=
+  let a := expectLine a "P cleanup ok" "cleanup() did not return normally"
+  if a.err.isSome then a else
+  match a.tl with
+  | kl :: sl :: cl :: il :: rest =>
+    match words kl, words sl with
+    | ["K", ks], ["S", hx] =>
+      let realBp := il.startsWith "I bp=" && il != "I bp=0"
+      if !il.startsWith "I bp=" then { a with err := some s!"op#{a.nops} expected the I line, got [{il.take 60}]" } else
+      let lens? : Option (List Nat) := if ks == "-" then some [] else (ks.splitOn ",").mapM (·.toNat?)
+      match lens?, hexToBytes hx with
+      | some lens, some arr =>
+        let stream := arr.toList
+        let a := { a with tl := rest }
+        if cl != "P cb overlap=0" then { a with err := some s!"op#{a.nops} sink callbacks OVERLAPPED: [{cl}]" } else
+        let prog : Nat → List (List UInt8) := fun p => lv.prog.getD p []
+        -- (1) the property, decided by the abstract spec
+        if !Spec.accept prog stream then
+          { a with err := some s!"op#{a.nops} delivered stream is not an interleaving of the appends: {diagnose prog stream}" }
+        else
+        match Spec.parse (stream.length + 1) prog stream with
+        | none => { a with err := some "internal: accept/parse disagree" }
+        | some (order, _) =>
+          -- (2) the run must be a run of the model
+          if lens.foldl (· + ·) 0 != stream.length then
+            { a with err := some s!"op#{a.nops} block lengths do not add up to the stream" } else
+          if lens.any (· == 0) then { a with err := some s!"op#{a.nops} sink called with an EMPTY block" } else
+          let blocks := splitBlocks stream lens
+          let maxE := lv.nrec + 1
+          let sch := schedule lv.cfg prog order (prefixSums lens) maxE
+          match sch.err with
+          | some e => { a with err := some s!"op#{a.nops} no model interleaving reproduces the run: {e}" }
+          | none =>
+            if sch.s.delivered != blocks then
+              let k := (List.zip sch.s.delivered blocks).takeWhile (fun (x, y) => x == y) |>.length
+              { a with err := some s!"op#{a.nops} block sequence is not a run of the model: block #{k} has {(blocks.getD k []).length} bytes, model (size {lv.cfg.size}) hands over {(sch.s.delivered.getD k []).length} there (a partial block must end where an append ends)" }
+            else if !sch.s.joined || sch.s.late then { a with err := some "internal: model schedule did not end in a clean join" }
+            else
+              let nthreads := ((List.range 8).filter fun p => !(Spec.dropEmpties (prog p)).isEmpty).length
+              let switches := (order.zip (order.drop 1)).filter (fun (x, y) => x.1 != y.1) |>.length
+              let partials := (lens.dropLast.filter (· < lv.cfg.size)).length
+              let spanning := order.any (fun pd => pd.2.length > lv.cfg.size)
+              let small := order.any (fun pd => pd.2.length < lv.cfg.size)
+              let exact := order.any (fun pd => pd.2.length == lv.cfg.size)
+              let tags := (if nthreads > 1 then ["producers>1"] else ["producers<=1"])
+                ++ (if switches > nthreads then ["interleaved"] else [])
+                ++ (if partials > 0 then ["timed-flush"] else [])
+                ++ (if spanning then ["append>buffer"] else [])
+                ++ (if small then ["append<buffer"] else [])
+                ++ (if exact then ["append=buffer"] else [])
+                ++ (if sch.blockedSeen then ["model-backpressure"] else [])
+                ++ (if realBp then ["real-backpressure"] else [])
+                ++ (if lv.cfg.minN == lv.cfg.maxN then ["min=max"] else ["min<max"])
+                ++ (if lv.cfg.size == 1 then ["size=1"] else [])
+                ++ (if stream.isEmpty then ["empty-stream"] else [])
+                ++ (if lens.getLast? != some lv.cfg.size && !lens.isEmpty then ["cleanup-flushed-partial"] else [])
+              { a with tags := a.tags ++ tags, live := none, lifecycles := a.lifecycles + 1,
+                       records := a.records + order.length, blocks := a.blocks + lens.length }
+      | _, _ => { a with err := some s!"op#{a.nops} unparsable K/S lines" }
+    | _, _ => { a with err := some s!"op#{a.nops} expected K and S lines after cleanup, got [{kl.take 60}]" }
+  | _ => { a with err := some s!"op#{a.nops} implementation output ends inside cleanup" }
+
+def inRange (w : String) (hi : Nat) : Option Nat :=
+  match w.toNat? with | some n => if n ≤ hi then some n else none | none => none
+
+def stepOp (a : TAcc) (line : String) : TAcc :=
+  if a.err.isSome then a else
+  let a := { a with nops := a.nops + 1 }
+  let bad := expectLine a "bad-op" "malformed op"
+  match words line with
+  | ["init", w1, w2, w3, w4] =>
+    match inRange w1 65536, inRange w2 64, inRange w3 64, inRange w4 1000, a.live with
+    | some sz, some mn, some mx, some iv, none =>
+      let cfg : Cfg := { size := sz, minN := mn, maxN := mx, interval := iv }
+      if cfg.ok then expectLine { a with live := some { cfg := cfg } } "P init 1" "initialize"
+      else expectLine { a with tags := a.tags ++ ["init-rejected"] } "P init 0" "initialize (bad config must be refused)"
+    | _, _, _, _, _ => bad
+  | ["perturb", w1, w2, w3] =>
+    match inRange w1 1000000000, inRange w2 5000, inRange w3 5000 with
+    | some _, some _, some _ => expectLine a "P perturb" "perturb"
+    | _, _, _ => bad
+  | ["prod", w1, w2, w3] =>
+    match inRange w1 7, inRange w2 5000, (w3.splitOn ",").mapM parseTok, a.live with
+    | some tid, some _, some toks, some lv =>
+      if (lv.declared.getD tid none).isSome || toks.length > 2000 then bad else
+      expectLine { a with live := some { lv with declared := lv.declared.setIfInBounds tid (some toks) } } "P prod" "prod"
+    | _, _, _, _ => bad
+  | ["run"] =>
+    match a.live with
+    | some lv =>
+      let lv' := (List.range 8).foldl (fun (lv : Live) tid =>
+        match lv.declared.getD tid none with
+        | none => lv
+        | some toks =>
+          let (seq, recs) := toks.foldl (fun (acc : Nat × List (List UInt8)) t =>
+            match t with
+            | .zero => (acc.1, [] :: acc.2)
+            | .app len _ => (acc.1 + 1, recordBytes tid acc.1 len :: acc.2)) (lv.nextSeq.getD tid 0, [])
+          { lv with nextSeq := lv.nextSeq.setIfInBounds tid seq,
+                    prog := lv.prog.setIfInBounds tid (lv.prog.getD tid [] ++ recs.reverse),
+                    declared := lv.declared.setIfInBounds tid none, nrec := lv.nrec + toks.length }) lv
+      expectLine { a with live := some lv' } "P run" "run"
+    | none => bad
+  | ["sleep", w1] =>
+    match inRange w1 500 with
+    | some _ => expectLine a "P sleep" "sleep"
+    | none => bad
+  | ["cleanup"] =>
+    match a.live with
+    | none => expectLine a "P cleanup noop" "cleanup of a pipe that is not initialised"
+    | some lv => judgeCleanup a lv
+  | _ => bad
+
+structure DS where
+  ops : Array String := #[]
+  tl : Array String := #[]
+
+def finish (d : DS) : List String :=
+  let a : TAcc := d.ops.foldl stepOp ({ tl := d.tl.toList } : TAcc)
+  let tagsLine := if a.tags.isEmpty then [] else ["B " ++ " ".intercalate a.tags.eraseDups]
+  match a.err with
+  | some e => tagsLine ++ ["reject " ++ e]
+  | none =>
+    match a.tl with
+    | [] => tagsLine ++ [s!"ok ops={a.nops} lifecycles={a.lifecycles} appends={a.records} blocks={a.blocks}"]
+    | l :: _ => tagsLine ++ ["reject unexpected extra implementation output: [" ++ (l.take 100).toString ++ "]"]
+
+def stepLine (d : DS) (line : String) : DS × List String :=
+  let t := line.trimAscii.toString
+  if t.isEmpty then (d, [])
+  else if t.startsWith "case " then ({}, [t])
+  else if t == "end" then ({}, finish d)
+  else if t.startsWith "T " then ({ d with tl := d.tl.push (t.drop 2).toString }, [])
+  else ({ d with ops := d.ops.push t }, [])
+
+def main : IO Unit := runDriver ({} : DS) stepLine
